@@ -63,6 +63,7 @@ SchemaClauses(e) ==
   IN
   << <<"SerialisationSucceeds", ok>>,
      <<"KeywordFormGivesTheSameJson", ok => e.kw_same>>,
+     <<"UnaffectedByAdditionsToAnotherHolder", ok => e.snapshot_ok>>,
      <<"PureJson", ok => (IsJson(e.js) /\ e.json_ok)>>,
      <<"SerialisedSpecMeansTheSchema", ok => (r.st = "ok" /\ Len(r.t) = Len(o) /\ \A j \in 1..Len(o) : RuleSame(r.t[j], ts[o[j]]))>>,
      <<"RebuildSucceeds", (ok /\ e.json_ok) => e.outcome_rb = "ok">>,
